@@ -4,6 +4,10 @@
 # demonstration on both (must fail with, pass without), runs the repository's full test suite on the
 # changed build. Writes <seeded-dir>/confirm.log and exits 0 iff everything is as required.
 WT=$1; SD=$2; LOG=$SD/confirm.log
+# already confirmed (by another queue): keep the log, repeat its verdict
+if [ -f "$LOG" ] && [ "$LOG" -nt "$SD/patch.diff" ] && grep -q "^SUMMARY base_demo_exit=0 changed_demo_exit=[1-9][0-9]* suite_pass=1" "$LOG"; then exit 0; fi
+if [ -f "$SD/.confirming" ]; then exit 3; fi
+touch "$SD/.confirming"; trap 'rm -f "$SD/.confirming"' EXIT
 exec > "$LOG" 2>&1
 set -x
 cd "$WT" || exit 2
